@@ -26,6 +26,7 @@ Definition res_of (o : outcome) : option res :=
   | ORaise EWouldBlock => Some RWouldBlock
   | ORaise ECancelled => Some RCancelled
   | ORaise EValue => Some RValue
+  | OCancelled => Some RCancelled
   | _ => None
   end.
 
